@@ -149,8 +149,12 @@ def cases(tier, seed):
     # device order matters for the etch backup handling: an etched device that is NOT first in the list, and two etched devices
     case("device-then-etch", (5, 3, 2), [dev("dA", (3, 0, 0), (2, 2, 1), (2, 1, 1), "iso_generic"), dev("dB", (0, 0, 1), (2, 2, 1), (1, 1, 1), "etch_air", etch=True)])
     case("etch-then-etch", (5, 3, 2), [dev("dA", (0, 0, 0), (2, 2, 1), (1, 1, 1), "etch_air", etch=True), dev("dB", (3, 1, 0), (2, 2, 2), (1, 1, 1), "etch_air", etch=True)])
+    # several design voxels along EVERY axis, each more than one cell thick (voxel expansion must repeat, not tile; seeded change C18b)
+    case("cont-blocks-xyz", (4, 2, 4), [dev("dev", (0, 0, 0), (4, 2, 4), (2, 1, 2), "iso_generic")])
+    case("disc-blocks-z", (3, 3, 4), [dev("dev", (1, 0, 0), (2, 2, 4), (1, 2, 2), "iso3", chain="closest")])
     if not q:
         G2 = (5, 4, 3)
+        case("T-cont-blocks-yz", (3, 4, 6), [dev("dev", (0, 0, 0), (2, 4, 6), (1, 2, 3), "diag")], bg="diag", exact=True)
         case("T-cont-iso-222", G2, [dev("dev", (1, 1, 1), (2, 2, 2), (1, 1, 1), "iso_generic")])
         case("T-cont-diag-blocks", G2, [dev("dev", (1, 0, 0), (4, 2, 2), (2, 2, 1), "diag")], bg="diag", exact=True)
         case("T-cont-full-222", G2, [dev("dev", (0, 2, 1), (2, 2, 2), (2, 1, 1), "full")], bg="full")
